@@ -166,7 +166,7 @@ def run(ctx):
                'model permutation and history: bit-identical (NaN-aware)', 'tie order is free: comparison is per model name')
     ctx.require_events('Fitter.fit:post', 'pair:filter-permutation', 'pair:model-permutation', 'pair:flux-scaling', 'pair:history',
                        'history:same-flags-other-errors', 'history:two-live-fitters', 'pair:filter-permutation:remove_resolved',
-                       'history:several-live-fitters-on-one-package')
+                       'history:several-live-fitters-on-one-package', 'pair:filter-permutation:v2', 'pair:model-permutation:v2')
     ctx.require_regimes('mode:2d', 'mode:3d', 'history:remove_resolved-band-dependent', 'history:v2-memmap')
     n_sets = 1 if ctx.quick else 4
     for iset in range(n_sets):
@@ -275,6 +275,25 @@ def run(ctx):
             for p in [list(range(nb))] + [list(rng.permutation(nb)) for _ in range(3)]:
                 fp = gen.make_fitter([st['bn'][i] for i in p], st['theta'][p], d_v2, st['law'], (-5.0, 40.0), st['dr'])
                 live.append((p, fp, probe.canon_info(fp.fit(gen.build_source('s', v[p], f[p], e[p])), with_source=False)))
+            # ... and they must agree with each other (filter permutation on the cube/memory-mapped package)
+            r_first = by_name(live[0][1].fit(gen.build_source('s', v, f, e)))
+            for (p, fp, _first) in live[1:]:
+                r_p = by_name(fp.fit(gen.build_source('s', v[p], f[p], e[p])))
+                compare(ctx, 'filter-permutation-changes-fit', 'permuting filters (photometry permuted alike) changed the fit (cube package, memory-mapped)',
+                        r_first, r_p, cond, wsum, dict(mode=mode, perm=p, valid=v, flux=f, error=e, package='v2-memmap'))
+                ctx.event('pair:filter-permutation:v2')
+            # model rows permuted inside the cube package
+            order2 = list(rng.permutation(len(st['names'])))
+            d_v2p = ctx.newdir('c11v2p')
+            gen.write_grid_v2(d_v2p, [st['names'][i] for i in order2], st['bn'], st['wav'], st['conv'][order2], apertures=st['aps'],
+                              aperture_dependent=(mode == '3d'), logd_step=0.1, fmt='E')
+            fpm = gen.make_fitter(st['bn'], st['theta'], d_v2p, st['law'], (-5.0, 40.0), st['dr'])
+            r_perm = by_name(fpm.fit(gen.build_source('s', v, f, e)))
+            compare(ctx, 'model-permutation-changes-fit', 'permuting the models inside the package changed a model\'s fit (cube package, memory-mapped)',
+                    r_first, r_perm, max(cond, 1e-3), wsum, dict(mode=mode, order=order2, package='v2-memmap'))
+            ctx.event('pair:model-permutation:v2')
+            del fpm
+            ctx.rmdir(d_v2p)
             for (p, fp, first) in live[::-1] + live:
                 again = probe.canon_info(fp.fit(gen.build_source('s', v[p], f[p], e[p])), with_source=False)
                 diffs = probe.same_canon(first, again)
